@@ -204,6 +204,9 @@ func TModeStubs(st map[string]StubFn) {
 			panic(unsupported("packages.Load pattern " + toString(patterns[0])))
 		}
 		srcFile := strings.TrimPrefix(pat, "file=")
+		if r.Env["load"] == "symbolic" {
+			return r.symbolicLoad(fr, fn, cfg, cfgT)
+		}
 		if v, ok := r.Env["load.err"]; ok && v == true {
 			return tuple{[]value(nil), r.newError("go list failed")}
 		}
@@ -253,8 +256,47 @@ func TModeStubs(st map[string]StubFn) {
 		return tuple{nativeV{reflect.ValueOf([]*packages.Package{pkg})}, iface{}}
 	}
 	st["go/parser.ParseFile"] = func(r *Run, fr *frame, fn *ssa.Function, a []value) value {
-		if r.Env["parser"] == "symbolic" {
-			return passThrough{}
+		if r.Env["load"] == "symbolic" {
+			// kernel mode (C12): the parser is environment; the call is recorded with the very
+			// bytes it was handed and returns an arbitrary error or a fresh file object
+			fromDisk := a[2].(iface).isNil()
+			if fromDisk {
+				// src == nil: the parser reads the named file itself
+				r.Effects = append(r.Effects, Effect{Op: "ParseFileFromDisk", Args: []value{a[1], a[3]}})
+			} else {
+				r.Effects = append(r.Effects, Effect{Op: "ParseFile", Args: []value{a[1], bytesToStr(a[2].(iface).v), a[3]}})
+			}
+			errName := "parse.err(" + keyOf(a[1]) + ")"
+			if fromDisk {
+				errName = "parsedisk.err(" + keyOf(a[1]) + ")"
+			}
+			err := r.nondetErr(errName)
+			if !err.(iface).isNil() {
+				return tuple{(*value)(nil), err}
+			}
+			ft := mustDeref(fn.Signature.Results().At(0).Type())
+			cell := new(value)
+			*cell = zero(ft)
+			st := (*cell).(structure)
+			fs := ft.Underlying().(*types.Struct)
+			for i := 0; i < fs.NumFields(); i++ {
+				if fs.Field(i).Name() == "Package" {
+					st[i] = 1 + len(r.Effects) // a position
+				}
+				if fs.Field(i).Name() == "Name" {
+					it := mustDeref(fs.Field(i).Type())
+					ic := new(value)
+					*ic = zero(it)
+					is := it.Underlying().(*types.Struct)
+					for k := 0; k < is.NumFields(); k++ {
+						if is.Field(k).Name() == "Name" {
+							(*ic).(structure)[k] = "pkgname"
+						}
+					}
+					st[i] = ic
+				}
+			}
+			return tuple{cell, iface{}}
 		}
 		r.Effects = append(r.Effects, Effect{Op: "ParseFile", Args: []value{a[1], a[3]}})
 		v, _ := r.callNativeFunc(fr, fn, a)
@@ -265,4 +307,70 @@ func TModeStubs(st map[string]StubFn) {
 // bytesVal converts a native []byte into an interpreter []byte value.
 func bytesVal(b []byte) value {
 	return nativeV{reflect.ValueOf(b)}
+}
+
+// symbolicLoad: packages.Load in kernel mode (C12). The loader hands the files named by the
+// harness (SetEnv load.files = n, load.file.<i> = name, load.content.<i> = bytes) to convergen's
+// real ParseFile hook and returns an arbitrary error, no package, or one package whose
+// Errors / IllTyped fields are arbitrary.
+func (r *Run) symbolicLoad(fr *frame, fn *ssa.Function, cfg structure, cfgT types.Type) value {
+	parseFile := structField(r, cfg, cfgT, "ParseFile")
+	fsetV := structField(r, cfg, cfgT, "Fset")
+	n := 0
+	if v, ok := r.Env["load.files"]; ok {
+		n = int(asInt64(v))
+	}
+	for i := 0; i < n; i++ {
+		name := r.Env[fmt.Sprintf("load.file.%d", i)]
+		content := r.Env[fmt.Sprintf("load.content.%d", i)]
+		res := r.call(fr, fr.callpos, parseFile, []value{fsetV, name, symBytes{content}}).(tuple)
+		r.Effects = append(r.Effects, Effect{Op: "hook-returned", Args: []value{name, !isNilResult(res[0]), !res[1].(iface).isNil()}})
+	}
+	err := r.nondetErr("load.err")
+	if !err.(iface).isNil() {
+		return tuple{[]value(nil), err}
+	}
+	if !r.branch(r.newInput("load.haspkg", SBool)) {
+		return tuple{[]value{}, iface{}}
+	}
+	// one package; its error lists are arbitrary
+	pt := mustDeref(fn.Signature.Results().At(0).Type().Underlying().(*types.Slice).Elem())
+	cell := new(value)
+	*cell = zero(pt)
+	st := (*cell).(structure)
+	ps := pt.Underlying().(*types.Struct)
+	for i := 0; i < ps.NumFields(); i++ {
+		switch ps.Field(i).Name() {
+		case "IllTyped":
+			st[i] = r.newInput("pkg.IllTyped", SBool)
+		case "Errors", "TypeErrors":
+			if r.branch(r.newInput("pkg."+ps.Field(i).Name()+".nonempty", SBool)) {
+				et := ps.Field(i).Type().Underlying().(*types.Slice).Elem()
+				ev := zero(et)
+				if es, ok := et.Underlying().(*types.Struct); ok {
+					for k := 0; k < es.NumFields(); k++ {
+						if es.Field(k).Name() == "Kind" {
+							kv := r.newInput("pkg."+ps.Field(i).Name()+".Kind", SInt)
+							r.assume(And(Le(IntT(0), kv), Le(kv, IntT(3))))
+							ev.(structure)[k] = kv
+						}
+					}
+				}
+				st[i] = []value{ev}
+			}
+		}
+	}
+	return tuple{[]value{cell}, iface{}}
+}
+
+func isNilResult(v value) bool {
+	switch x := v.(type) {
+	case *value:
+		return x == nil
+	case nativeV:
+		return nativeIsNil(x)
+	case iface:
+		return x.isNil()
+	}
+	return false
 }
